@@ -491,6 +491,18 @@ def check_atom_route(ctx, spec):
     ng.compare_outputs("c03:atom-route:default-wavelength", sld, comp, rho, [1.798], case, tag, outputs=OUTPUTS[:3])
     got = ng.flatten(pt.neutron_scattering(atom))
     ng.compare_outputs("c03:compound:default-wavelength", got, comp, rho, [1.798], case, tag)
+    # a LONG wavelength grid (6 000 points from well below to well above the tabulated range): entry i is what the
+    # scalar call gives at wavelength i - judged by the reference at both ends, inside and outside the table
+    if tab:
+        long = np.linspace(0.05, 50.0, 6000)
+        pick = [0, 1, 2, 7, 40, 300, 1500, 3000, 4500, 5900, 5998, 5999]
+        for label, call in (("atom", lambda: atom.neutron.scattering(wavelength=long)),
+                            ("compound", lambda: pt.neutron_scattering(atom, wavelength=long))):
+            got = ng.flatten(call())
+            for o in OUTPUTS:
+                ng.check_shape("c03:long-grid:" + label, o, got[o], (len(long),), case)
+            sub_ = dict((o, np.asarray(got[o])[pick]) for o in OUTPUTS)
+            ng.compare_outputs("c03:long-grid:" + label, sub_, comp, rho, [float(long[i]) for i in pick], case, tag)
     # the neutron record itself, duplicated (copy / deepcopy / pickle round trip), answers like the original
     import copy
     import pickle
